@@ -328,5 +328,13 @@ func Main(m *testing.M) {
 	doInit()
 	code := m.Run()
 	flush()
+	for _, f := range atExit {
+		f()
+	}
 	os.Exit(code)
 }
+
+var atExit []func()
+
+// AtExit registers a function run after the tests of the package, before the process exits.
+func AtExit(f func()) { atExit = append(atExit, f) }
